@@ -311,6 +311,11 @@ bool small_range::operator<=(const small_range &other) const {
     return true;
   }
 
+  if (other.is_bottom()) {
+    // *this is not bottom
+    return false;
+  }
+
   switch(m_kind) {
   case ExactlyZero:
     return other.m_kind != ExactlyOne && other.m_kind != OneOrMore;
